@@ -63,7 +63,7 @@ func strideRules(c *props.Ctx, p *c09path, blockSite *site) {
 		return
 	}
 	nAlloc := 0
-	for _, fn := range c.P.FuncsOf(sp) {
+	for _, fn := range sortedFuncs(c, sp) {
 		if c.P.IsControl(fn.Pos()) {
 			continue
 		}
